@@ -59,9 +59,27 @@ class Captured(object):
         return False
 
 
-def make_spec(kind, semantics=None):
+# names of the specification classes instantiated since the runner last cleared the list (appended to failure reports)
+CLASS_LOG = []
+
+
+def combined_class(text):
+    """One specification in three is built with the combined class of the README (StlDiscreteTimeSpecification /
+    StlDenseTimeSpecification, offline and online in one object) instead of the dedicated offline / online class: a pure
+    function of the specification text, so that a replay makes the same choice."""
+    import zlib
+    return zlib.crc32((text or '').encode('utf-8')) % 3 == 0
+
+
+def make_spec(kind, semantics=None, text=None):
     """kind: 'dt' (offline+online discrete), 'dt_off', 'dt_on', 'ct', 'ct_off', 'ct_on'."""
     sem = SEMANTICS[semantics]
+    if sem == rtamt.Semantics.STANDARD and text is not None and combined_class(text):
+        kind = kind[:2]
+    CLASS_LOG.append({'dt': 'StlDiscreteTimeSpecification', 'ct': 'StlDenseTimeSpecification', 'dt_off': 'StlDiscreteTimeOfflineSpecification',
+                      'dt_on': 'StlDiscreteTimeOnlineSpecification', 'ct_off': 'StlDenseTimeOfflineSpecification',
+                      'ct_on': 'StlDenseTimeOnlineSpecification'}.get(kind, kind))
+    del CLASS_LOG[:-8]
     if kind == 'dt':
         return rtamt.StlDiscreteTimeSpecification(semantics=sem)
     if kind == 'ct':
@@ -80,11 +98,11 @@ def make_spec(kind, semantics=None):
 
 
 def build(kind, text, variables, semantics=None, io_types=None, consts=None, subspecs=(),
-          unit=None, period=None, pastify=False, parse=True, declare=True):
+          unit=None, period=None, pastify=False, parse=True, declare=True, dedicated=False):
     """Construct, configure and parse a specification object.
     consts: list of (name, type, value-string); subspecs: list of texts for add_sub_spec;
     period: (value, unit[, tolerance])."""
-    spec = make_spec(kind, semantics)
+    spec = make_spec(kind, semantics, None if dedicated else text)       # explain() exists on the dedicated offline class only
     if declare:
         for v in variables:
             spec.declare_var(v, 'float')
@@ -136,9 +154,21 @@ def run_dt_on(text, variables, trace, time=None, kind='dt_on', feed=None, **cfg)
         n = len(next(iter(trace.values())))
         outs = []
         names = feed if feed is not None else list(trace.keys())
+        # the container that carries the (name, value) pairs is a function of the text: list of tuples, list of lists,
+        # tuple of tuples or a one-shot iterator (zip)
+        import zlib
+        shape = (zlib.crc32((text or '').encode('utf-8')) >> 8) % 4
         for i in range(n):
             t = time[i] if time is not None else i
-            outs.append(spec.update(t, [(v, trace[v][i]) for v in names]))
+            if shape == 0:
+                ds = [(v, trace[v][i]) for v in names]
+            elif shape == 1:
+                ds = [[v, trace[v][i]] for v in names]
+            elif shape == 2:
+                ds = tuple((v, trace[v][i]) for v in names)
+            else:
+                ds = zip(list(names), [trace[v][i] for v in names])
+            outs.append(spec.update(t, ds))
         return ('ok', outs)
     except RecursionError:
         raise
